@@ -45,7 +45,7 @@ TIER = {
     "thorough": {"runs": {"e1": 8000, "e2": 6000, "e3": 8000, "e3m": 8000, "e4": 12000}, "budget_s": 900, "K": 4,
                  "shrink_s": 120},
 }
-RUN_TIMEOUT_S = 120
+RUN_TIMEOUT_S = 300
 # properties whose code iterates over sets of strings: the first N run indices are executed under EVERY
 # hash-seed class and the final world digests are compared across classes by the parent
 CROSS_HASH = {"C17": 96}
